@@ -4,6 +4,7 @@ import (
 	"encoding/json"
 	"errors"
 	"fmt"
+	"github.com/dominant-strategies/go-quai/crypto"
 	"math/big"
 	"strings"
 
@@ -84,7 +85,7 @@ func projectReceipt(r *types.Receipt) []PV {
 		{sc, fmt.Sprint(r.Status) + "/" + hx(r.PostState)},
 		{classU64(r.CumulativeGasUsed, 64), fmt.Sprint(r.CumulativeGasUsed)},
 		{classU64(r.GasUsed, 64), fmt.Sprint(r.GasUsed)},
-		{lc, lv.String() + "bloom:" + hx(r.Bloom.Bytes()[:8])},
+		{lc, lv.String() + "bloom:" + hx(crypto.Keccak256(r.Bloom.Bytes())[:12])},
 		{dc, dv.String()}, {tc, tv.String()},
 		{cc, hx(r.ContractAddress.Bytes())},
 		{classHash(r.TxHash), r.TxHash.Hex()},
